@@ -96,7 +96,8 @@ def main(argv):
         case = prop.gen(stratum, rng, tier)
         obs = run_case(prop, case, stratum)
         faulthandler.cancel_dump_traceback_later()
-        rec = {"s": stratum, "i": i, "h": case_hash(case), "o": obs.to_json(), "t": round(time.time() - t0, 3)}
+        rec = {"s": stratum, "i": i, "h": case_hash(case), "o": obs.to_json(), "t": round(time.time() - t0, 3),
+               "hs": os.environ.get("PYTHONHASHSEED", "0")}
         if obs.violations:
             nviol += 1
             # the witness is on disk before any minimisation starts: shrinking must never lose a violation
